@@ -19,6 +19,7 @@ import (
 	"github.com/jech/storrent/peer"
 	"github.com/jech/storrent/tor"
 	"verifharness/fixture"
+	"verifharness/refwire"
 	"verifharness/swarm"
 	"verifharness/vk"
 )
@@ -28,7 +29,7 @@ var opNames = []string{"GetStats", "GetAvailable", "DropPeer", "GetPeer", "GetPe
 	"PeerError", "PeerHangup"}
 
 var positions = []string{"already-stopped", "stop-before-call", "call-before-stop", "simultaneous", "context-cancelled-before-call", "context-cancelled-simultaneous",
-	"stop-queued-mailbox-full"}
+	"stop-queued-mailbox-full", "live-peer-leaves-mailbox-full"}
 
 type result struct {
 	mu       sync.Mutex
@@ -168,6 +169,9 @@ func enumerate(tier string) []scase {
 						if (op == "PeerError" || op == "PeerHangup") && np == 0 {
 							continue
 						}
+						if pos == "live-peer-leaves-mailbox-full" && (depth != 0 || nr != 0 || np == 0) {
+							continue // once per (op, peers)
+						}
 						if pos == "stop-queued-mailbox-full" && (depth != 512 || np == 0) {
 							// the stop is queued first, then the mailbox is filled to the brim: once per (op, peers)
 							if depth != 0 || nr != 0 || np == 0 {
@@ -175,6 +179,9 @@ func enumerate(tier string) []scase {
 							}
 						}
 						reps := 1
+						if pos == "live-peer-leaves-mailbox-full" {
+							reps = 3
+						}
 						if pos == "simultaneous" || pos == "context-cancelled-simultaneous" {
 							reps = 60
 							if tier == "thorough" {
@@ -314,6 +321,41 @@ func runCase(t *testing.T, c *vk.C, sc scase) {
 			go sw.CancelContext()
 			go e.call(sc.Op, res)
 			tr.Killed = true
+		case "live-peer-leaves-mailbox-full":
+			// the peers are interested (we hold pieces 0 and 3): the choking round will ask each for its status
+			for _, r := range remotes {
+				r.Send(refwire.Msg{Kind: refwire.KInterested})
+			}
+			sw.Cut()
+			// nothing is being deleted yet: a peer leaves a live torrent while the loop is busy and the mailbox
+			// full, timers run, the loop resumes; then the call, which must be served, and only then the stop
+			ch := park()
+			for i := 0; i < 600; i++ {
+				select {
+				case tr.T.Event <- peer.TorAnnounce{IPv6: false}:
+				default:
+					i = 600
+				}
+			}
+			remotes[0].Close()
+			sw.Cut()
+			time.Sleep([]time.Duration{0, 25 * time.Second, 45 * time.Second}[sc.Rep%3]) // the 20 s ticker (choking round, which asks every peer for its status) becomes due or not
+			sw.Cut()
+			<-ch
+			time.Sleep(2 * time.Second)
+			sw.Cut()
+			go e.call(sc.Op, res)
+			sw.Cut()
+			time.Sleep(time.Second)
+			sw.Cut()
+			if ret, _, _, _ := res.get(); ret || sc.Op == "ReaderRead" {
+				// (a read of a piece nobody has blocks on a live torrent; it must fail once the torrent stops)
+				served = sc.Op != "ReaderRead"
+				go kill()
+			} else {
+				// the call is stuck on a live torrent: reported below as a hang; do not pile a Kill on top
+				tr.Killed = true
+			}
 		case "stop-queued-mailbox-full":
 			// the stop sits at the head of a mailbox that is then filled to the brim; whatever the call (or the
 			// departing peer) wants to tell the loop cannot be queued, and the loop stops without draining
@@ -453,6 +495,11 @@ func runCase(t *testing.T, c *vk.C, sc scase) {
 func TestCheck(t *testing.T) {
 	r := vk.New("C17")
 	defer r.Done()
+	if os.Getenv("VERIF_PART") == "webseed-stop" {
+		webseedStop(t, r)
+		r.Finish()
+		return
+	}
 	cases := enumerate(r.Env.Tier)
 	seeds := r.Env.N(1, 5)
 	idx := 0
